@@ -22,7 +22,7 @@ ASSUMPTIONS = ['between the last row\'s shift reaching fchans and the implemente
                'row shifts within 1e-6 of a rounding tie are excluded and counted',
                'normalised output is only checked for non-constant content']
 REQUIRED_CLASSES = ['slice_bounds_numpy_integers', 'derived_parent', 'dedrift_exact_ties', 'op=slice', 'op=dedrift', 'op=integrate', 'asc', 'desc', 'dedrift_neg', 'dedrift_pos',
-                    'dedrift_rejected', 'dedrift_meta', 'integrate_frame', 'integrate_norm', 'tone']
+                    'dedrift_rejected', 'dedrift_meta', 'integrate_frame', 'integrate_norm', 'tone', 'integer_data']
 
 
 @st.composite
@@ -57,6 +57,9 @@ def strategy_(draw, tier):
         c.update(axis=draw(st.sampled_from(['t', 'f', 0, 1])), mode=draw(st.sampled_from(['mean', 'sum', 's', 'm'])),
                  normalize=draw(st.booleans()), how=draw(st.sampled_from(['array', 'frame', 'helper'])),
                  omit_defaults=draw(st.sampled_from([False, False, True])))
+        if draw(st.integers(0, 4)) == 0:
+            # integer-typed data (8/16-bit spectrogram products): the sum / mean is the mathematical one, not one wrapped to the dtype
+            c['int_dtype'] = draw(st.sampled_from(['uint8', 'int16', 'int32']))
     else:
         c.update(start=draw(gen.finite(0.3, 0.7)), drift_ch=draw(gen.finite(-1.5, 1.5)))
     return c
@@ -88,8 +91,12 @@ def check_common(obs, tag, fr, child, keep_df=True, keep_dt=True):
         obs.fail(f'{tag}:source_name', f'{child.source_name!r} vs {fr.source_name!r}')
 
 
+def ok_int_data(fr):
+    return np.all(np.isfinite(np.asarray(fr.data, dtype=float)))
+
+
 def check_copy(obs, tag, fr, child, before):
-    child.data[...] = -12345.0
+    child.data[...] = 77 if child.data.dtype.kind in 'iu' else -12345.0
     if not np.array_equal(fr.data, before):
         obs.fail(f'{tag}:view_not_copy', '')
 
@@ -132,6 +139,10 @@ def run_case(case, ctx):
         if not ok:
             return obs
         obs.cls('derived_parent')
+    if case.get('int_dtype') and ok_int_data(fr):
+        lim = {'uint8': 200, 'int16': 30000, 'int32': 2 ** 31 - 1000}[case['int_dtype']]
+        fr.data = (np.floor(np.asarray(fr.data, dtype=float) * 37.0) % lim).astype(case['int_dtype'])
+        obs.cls('integer_data')
     custom_ts = any(p_['op'] in ('moved_ts', 'consolidate') for p_ in case.get('pre', []))   # children then get the default grid
     data = np.array(fr.data, dtype=float, copy=True)
     # single-precision data is reduced in single precision by numpy
